@@ -669,8 +669,9 @@ class C15(core.Check):
             if f["content"] != f["term"]:
                 msgs.append("content() differs from the grid although the view is not scrolled back")
         elif 0 < k <= len(f["sb"]):
-            want = buf[len(buf) - h - k:len(buf) - k]
-            if [[c[2] for c in r] for r in f["content"]] != [[c[2] for c in r] for r in want]:
+            # (kept lines have the width of the terminal when they left: shown padded with blanks / cut to the width)
+            want = [([c[2] for c in r] + [[32]] * (w - len(r)))[:w] for r in buf[len(buf) - h - k:len(buf) - k]]
+            if [[c[2] for c in r] for r in f["content"]] != want:
                 msgs.append(f"scrolled back by {k}: content() does not show lines {len(buf) - h - k}..{len(buf) - k} of scrollback + screen")
         else:
             msgs.append(f"view scrolled back by {k} lines with {len(f['sb'])} lines of scrollback")
